@@ -70,37 +70,44 @@ def table_order_rule(ck, prog, run):
         ents = [ObjV(ec, {"psr": StrV("J0000"), "obs": StrV("ao"), "freq": Num(327 * 10**6 * Hz, kind="quantity"), "tmid": Num(sp.Integer(t) * 5400 / Hz, kind="time"),
                           "span": Num(5400 / Hz, kind="quantity"), "rphase": Num(sp.Symbol(f"r{t}", integer=True)), "poly": StrV(f"polynomial of entry {t}")})
                 for t in order]
-        got = {}
-
-        class _Stop(Exception):
-            pass
+        got = {"sorts": []}
 
         def ov(ev_, args, kwargs, node, fr, fn=None, got=got):
             got["data"] = args[0] if args else kwargs.get("data")
-            raise _Stop()
+            return NONE
+
+        def sort_method(ev_, args, kwargs, fr, node, got=got):
+            got["sorts"].append((list(args), dict(kwargs)))
+            return NONE
+        from ..values import PyFuncV
         ev = ck.evaluator()
         ev.overrides["builtins.object.__init__"] = ov
+        me = ObjV(ci, {"sort": PyFuncV(sort_method, "QTable.sort")})
         tag = f"PhasePredictor(entries with TMID order {list(order)})"
         try:
-            ev.call(init, [ListV(ents)], {}, self_val=ObjV(ci, {}))
-        except _Stop:
-            pass
-        except (Raised, Unsupported) as e:
-            ck.unk("R2", init.where, tag, "the constructor evaluates up to the table base class", str(e)[:200])
-            continue
+            ev.call(init, [ListV(ents)], {}, self_val=me)
+        except Raised as e:
+            if "data" not in got:
+                ck.unk("R2", init.where, tag, "the constructor evaluates up to the table base class", str(e)[:200])
+                continue
+        except Unsupported as e:
+            # everything after the rows are stored (column checks through the table API) is outside this rule
+            if "data" not in got:
+                ck.unk("R2", init.where, tag, "the constructor evaluates up to the table base class", str(e)[:200])
+                continue
         data = got.get("data")
         if not isinstance(data, ListV) or not all(isinstance(d_, DictV) and "tmid" in d_.d for d_ in data.items):
             ck.unk("R2", init.where, tag, "the constructor hands a list of per-entry dicts to the table base class", repr(data)[:160])
             continue
         tm = [sp.simplify(d_.d["tmid"].expr * Hz / 5400) for d_ in data.items]
-        later_sort = [c for st in init.node.body for c in ast.walk(st) if isinstance(st, ast.Expr) and isinstance(c, ast.Call) and norm(c.func) == "self.sort"
-                      and any(isinstance(k_, ast.Constant) and k_.value == "tmid" for a_ in c.args for k_ in ast.walk(a_))]
-        if tm != sorted(order) and sorted(tm) == sorted(order) and later_sort:
-            ck.same("R2", init.where, tag, "the table is put into ascending TMID order by an unconditional self.sort('tmid') after the rows are stored", True, nontrivial=True)
+        sorted_later = any(a_ and isinstance(a_[0], StrV) and a_[0].s == "tmid" and not any(isinstance(v_, BoolV) and v_.b for k_, v_ in kw_.items() if k_ == "reverse")
+                           for a_, kw_ in got["sorts"])
+        if tm != sorted(order) and sorted(tm) == sorted(order) and sorted_later:
+            ck.same("R2", init.where, tag, "the table is put into ascending TMID order by self.sort('tmid') on this path, after the rows are stored", True, nontrivial=True)
             n += 1
             continue
         ck.same("R2", init.where, tag, "the rows handed to the table are all the entries, in ascending TMID order (what the binary search over span ends relies on)",
-                tm == sorted(order), found=f"row order {tm}", expected=str(sorted(order)), nontrivial=True)
+                tm == sorted(order), found=f"row order {tm}" + ("" if not got["sorts"] else f"; later sort calls: {len(got['sorts'])}"), expected=str(sorted(order)), nontrivial=True)
         n += 1
     run.floor("R2", "entry orders pushed through the constructor", n, 6)
 
@@ -559,6 +566,8 @@ def r5(ck, prog, run):
     def sanction(fi, node, how):
         if fi.qualname == "PhasePredictor.intervals" and "_intervals" in norm(node):
             return "idempotent cache of a value derived from the table"
+        if fi.name == "__init__" and fi.cls is not None and (" on 'self'" in how or how.startswith("attribute store 'self.")):
+            return "the object under construction: the constructor establishes the table (row order included) before any prediction can run"
         return None
     an = AliasAnalysis(prog, {"pulsarbat.pulsar.predictor"}, sanction=sanction)
     sinks = an.run()
